@@ -21,6 +21,13 @@ func init() {
 			ruleC16R2(w, r)
 			ruleC15R6(w, r, "C15.R6")
 			ruleC05R7(w, r, "C05.R7")
+			r.Rule("C16.R5", "no silent success over several inputs or outputs: the difference verdict of diff and sum-diff is latched across files/items; finish() of the text-out writer runs whatever the command body returned", 3)
+			for _, n := range []string{"DiffCommand.execute", "SumDiffCommand.execute"} {
+				if ex := fn(w.Cmd, n); ex != nil {
+					ruleLatchedVerdict(w, r, "C16.R5", ex)
+				}
+			}
+			ruleFinishAlways(w, r, "C16.R5")
 		},
 	})
 }
